@@ -380,3 +380,7 @@ def run(ctx):
     r2b(ctx, fs)
     r2(ctx, fs)
     r3(ctx, fs)
+    # the keyed accesses `assigns[..].at(v)` of the noexcept ov_theory::new_eq cannot throw only because v ranges over the intersection of the two domains
+    # (C14.R2): evaluated here as C18.R4
+    from .C14 import r2 as ov_new_eq
+    ov_new_eq(ctx, ctx.facts('P'), rid='C18.R4')
